@@ -14,16 +14,19 @@ SX(c) == Abs(c.xs[2] - c.xs[1])
 SY(c) == Abs(c.ys[2] - c.ys[1])
 MaxOf(S) == CHOOSE d \in S : \A x \in S : d >= x
 \* int(max/cell + 0.5) and floor(max/cell), exact, for max^2 = k + 1/4 (E) or max = k + 1/4 (M)
+\* kint = 1: max_distance is the INTEGER c.k in lattice units (coordinates may carry a non-binary scale)
 PadOf(c, cell) ==
+  IF c.kint = 1 THEN (2*c.k + cell) \div (2*cell) ELSE
   IF c.metric = "E" THEN MaxOf({0} \cup {p \in 1..40 : (2*p-1)*(2*p-1)*cell*cell <= 4*c.k + 1})
   ELSE (4*c.k + 1 + 2*cell) \div (4*cell)
 FloorOf(c, cell) ==
+  IF c.kint = 1 THEN c.k \div cell ELSE
   IF c.metric = "E" THEN MaxOf({0} \cup {p \in 1..40 : p*p*cell*cell <= c.k})
   ELSE c.k \div cell
 \* does max_distance reach the raster extent (corner-to-corner distance)?
 Corner2(c) == LET dx == Abs(c.xs[c.W] - c.xs[1])  dy == Abs(c.ys[c.H] - c.ys[1]) IN
               IF c.metric = "E" THEN dx*dx + dy*dy ELSE dx + dy
-Fallback(c) == c.k = -1 \/ c.k >= Corner2(c)
+Fallback(c) == c.k = -1 \/ (IF c.kint = 1 /\ c.metric = "E" THEN c.k * c.k >= Corner2(c) ELSE c.k >= Corner2(c))
 
 Env(c) == [H |-> c.H, W |-> c.W, img |-> [r \in 0..c.H-1 |-> F(c.img[r+1])],
            xs |-> F(c.xs), ys |-> F(c.ys), metric |-> c.metric, tab |-> <<>>,
